@@ -76,6 +76,16 @@ Theorem C16_builder_visits_exactly_active : forall choose roots bfs fuel, (work_
 Proof. exact builder_visits_active. Qed.
 Print Assumptions C16_builder_visits_exactly_active.
 
+(* ... and it validates every chosen value, whatever the parameter's type: a value outside the domain (atom 0) of any
+   active parameter is refused, and an answer lists exactly the active parameters with the values chosen for them *)
+Theorem C16_builder_validates_every_value : forall choose roots bfs fuel, (work_size roots <= fuel)%nat ->
+  ((exists t, active choose roots t /\ choose t = 0%N) -> exists e, build_v fuel bfs choose roots = Err e) /\
+  (forall l, build_v fuel bfs choose roots = Ok l ->
+     (forall t, In t (map fst l) <-> active choose roots t) /\ Forall (fun tv => snd tv = choose (fst tv) /\ snd tv <> 0%N) l) /\
+  ((forall t, active choose roots t -> choose t <> 0%N) -> exists l, build_v fuel bfs choose roots = Ok l).
+Proof. exact builder_validates. Qed.
+Print Assumptions C16_builder_validates_every_value.
+
 Example C16_nonvacuous :
   exists p, factory [120%N] (Some (RInt 1, RInt 5)) [] = Ok p /\ pc_contains p (RFloat (XF 2)) = Accept /\
             pc_contains p (RFloat XPInf) = Refuse /\ pc_contains p (RFloat (XF (5 # 2))) = Refuse /\ pc_contains p (RBool true) = Accept.
